@@ -238,6 +238,8 @@ M('F9R', 'src/xdoctest/doctest_example.py', "                if directive.name =
 M('F9bR', 'src/xdoctest/directive.py', "self._global_state.update(copy.deepcopy(default_state))",
   "self._global_state.update(default_state)", ['C11'],
   'F9 repair, second site reverted: the REQUIRES set of the session defaults is shared by every doctest')
+M('F18R', 'src/xdoctest/core.py', "split_google_docblocks(docstr.expandtabs())", "split_google_docblocks(docstr)", ['C01', 'C18'],
+  'F18 repair reverted: google blocks split on the raw text with tabs')
 M('F17R', 'src/xdoctest/doctest_example.py', """                part_directive = None
                 try:
                     try:
